@@ -164,7 +164,8 @@ from elementpath.xpath_tokens import XPathMap as _XMap, XPathArray as _XArr  # n
 JSON_TEXTS = ('1e20', '1e-10', '100', '1200', '0.5', '-2.50', '{"a":null}', '[null]', '{"a":[]}', '{"a":{}}', '[[]]', '"x"', 'true', 'null',
               '[1,{"b":[null,false]}]', '{"a":[],"b":{"c":[],"d":[[]]}}', '[12345678901234567890]', '{"k":1e5,"l":[1.5e-7]}',
               '{"a\\"b":1}', '{"a<b":"c&d"}', '"it\'s \\"q\\""', '{"":[""]}',
-              '1.5e20', '[2.5e-10, -1.25e300, 1.25e100]', '"a\\\\qb"', '{"k\\\\q":[null,true,{"a\\nb":"x\\\\y"}]}', '"\\\\u00"', '"\\\\"')
+              '1.5e20', '[2.5e-10, -1.25e300, 1.25e100]', '"a\\\\qb"', '{"k\\\\q":[null,true,{"a\\nb":"x\\\\y"}]}', '"\\\\u00"', '"\\\\"',
+              '"a/b"', '"a\\/b"', '"\\\\\\""', '"\\"/\\""', '{"a/b":1}', '{"a\\/b":"\\\\\\/"}', '"\\u00e9\\n\\t/"')
 P31B = P31.__class__(base_uri='http://example.com/base/')
 TB_ = {False: parse_all({'x2j_esc': 'xml-to-json(json-to-xml($t, map{"escape": true()}))', 'x2j': 'xml-to-json(json-to-xml($t))', 'pj': 'parse-json($t)', 'ser': 'serialize(parse-json($t), map{"method": "json"})'}),
        True: parse_all({'x2j_esc': 'xml-to-json(json-to-xml($t, map{"escape": true()}))', 'x2j': 'xml-to-json(json-to-xml($t))', 'pj': 'parse-json($t)', 'ser': 'serialize(parse-json($t), map{"method": "json"})'}, parser=P31B)}
@@ -199,17 +200,17 @@ def _norm(j):
     return j
 
 
-@ob(budget=200, bound='JSON text from a table of 28 (exponent numbers, nulls, empty arrays/objects as members, nested shapes; index chosen by the '
+@ob(budget=200, bound='JSON text from a table of 35 (exponent numbers, nulls, empty arrays/objects as members, nested shapes, solidus and backslash-quote strings; index chosen by the '
                       'solver) x parser with / without a static base URI: xml-to-json(json-to-xml(t)), parse-json(t) and '
                       'serialize(parse-json(t), json) and xml-to-json with an options map (empty, indent true / false) all denote the value an independent JSON parser reads from t',
     funcs=['elementpath/xpath31/_xpath31_functions.py:evaluate__xml_to_json', 'elementpath/xpath31/_xpath31_functions.py:evaluate__json_to_xml',
            'elementpath/xpath31/_xpath31_functions.py:evaluate__parse_json', 'elementpath/serialization.py:serialize_to_json'])
 def json_texts_roundtrip(ti: int, base: bool) -> bool:
     """
-    pre: 0 <= ti <= 27
+    pre: 0 <= ti <= 34
     post: _
     """
-    t = JSON_TEXTS[[k for k in range(28) if k == ti][0]]
+    t = JSON_TEXTS[[k for k in range(35) if k == ti][0]]
     toks = TB_[True if base else False]
     want = _norm(_json.loads(t))
     for key in ('x2j', 'x2j_esc'):
@@ -379,3 +380,33 @@ def serialize_with_reserved_prefixes(i: int, in_context: bool) -> bool:
         r = T_NS17[i].evaluate(XPathContext(root))
     r = r[0] if isinstance(r, list) else r
     return isinstance(r, str) and r.count('a') >= 1 and ('b />' in r or 'b/>' in r) and '"u"' in r
+
+
+# --- added after the round-4 baseline reports: the options of parse-json / json-to-xml do not depend on their order in the map ---------------
+
+_OPT_ORDER = ("map{'fallback': function($s) {'?'}, 'escape': true()}", "map{'escape': true(), 'fallback': function($s) {'?'}}",
+              "map{'escape': false(), 'fallback': function($s) {'?'}}", "map{'fallback': function($s) {'?'}, 'escape': false()}", "map{'fallback': function($s) {'?'}}", "map{}")
+T_OPT17 = {f: tuple(P31.parse("%s($t, %s)" % (f, o)) for o in _OPT_ORDER) for f in ('parse-json', 'json-to-xml')}
+T_OPT17_TEXT = P31.parse('string($d)')
+
+
+@ob(budget=120, bound='parse-json / json-to-xml of the text "\\u0000x" with 6 option maps (fallback and escape in both orders, escape false in both orders, fallback alone, '
+                      'none; function and index chosen by the solver): escape=true with a fallback is FOJS0005 in both orders; a fallback function replaces the '
+                      'character; without options the replacement is the one character U+FFFD',
+    funcs=['elementpath/xpath31/_xpath31_functions.py:evaluate__parse_json', 'elementpath/xpath31/_xpath31_functions.py:evaluate__json_to_xml'])
+def json_option_order_independent(x2: bool, oi: int) -> bool:
+    """
+    pre: 0 <= oi <= 5
+    post: _
+    """
+    from harness.common import err_code
+    oi = [k for k in range(6) if k == oi][0]
+    tok = T_OPT17['json-to-xml' if x2 else 'parse-json'][oi]
+    try:
+        r = ev(tok, t='"\\u0000x"')
+    except ElementPathError as e:
+        return oi <= 1 and err_code(e) == 'FOJS0005'
+    if oi <= 1 or len(r) != 1:
+        return False
+    text = ev(T_OPT17_TEXT, d=r[0])[0] if x2 else r[0]
+    return text == ('�x' if oi == 5 else '?x')
